@@ -199,6 +199,11 @@ def run(ctx: Ctx) -> int:
     r = ctx.tlc("MC_C07", "SPECIFICATION Spec\nCONSTANTS LEN = 2\nCHECK_DEADLOCK FALSE\n", dump=True, name="literal texts, well-formed or not")
     lits = sorted(set("".join(chr(c) for c in s["text"]) for s in read_dump(r.dump)))
     lits += json.load(open(__file__.rsplit("/", 1)[0] + "/odd_literals.json"))
+    # every number spelling of the C07 number model (signs, leading zeros, hex, suffixes, exponents; in and out of range)
+    from . import c07
+    r = ctx.tlc("MC_C07N", c07.INVN, dump=True, name="number literal spellings")
+    nums = sorted(set(c07.s_of(s["text"]) for s in read_dump(r.dump) if s["text"]))
+    lits += nums + ["[1, %s]" % t for t in nums[::7]] + ["1 - %s" % t for t in nums[::11]]
     for text, res in zip(lits, pmap(_eval_text, lits)):
         for rr, prob, msg in res:
             if prob:
